@@ -79,6 +79,12 @@ def base_configs():
                                            "skip_preconditioning_rank1": False},
                                  "param_dtype": "bfloat16"}, bf16(TREE_A)),
       ("sm3", "sm3", {"weight_decay": 0.01}, TREE_C),
+      # schedules in plain Python arithmetic (their value depends on the kind of step count they get)
+      ("sm3-pylr", "sm3", {"weight_decay": 0.01, "lr_callable": "python"}, TREE_C),
+      ("ds-pylr", "ds", {"block_size": 4, "lr_callable": "python"}, TREE_A),
+      ("tf-pylr", "tf", {"second_order": {"shampoo": {"block_size": 2}, "merge_dims": 4},
+                         "graft": {"grafting_type": "rmsprop", "skip_preconditioning_rank1": False},
+                         "lr_callable": "python"}, TREE_A),
       ("sm3-beta2-1", "sm3", {"beta2": 1.0, "normalize_grads": True, "lr_callable": True}, TREE_B),
       ("tf-shampoo", "tf", {"second_order": {"shampoo": {"block_size": 2, "update_statistics_freq": 2,
                                                          "update_preconditioners_freq": 2},
@@ -110,7 +116,7 @@ def gen_cases(ctx):
   # eager mode (Python code of update runs every step): small trees, fewer crash points
   eager = [c for c in base_configs() if c[0] in (
       "ds-full", "ds-compressed", "ds-fd-reuse", "sm3", "tf-shampoo", "tf-sketchy", "ds-full-bf16",
-      "sm3-bf16") or not quick]
+      "sm3-bf16", "sm3-pylr", "ds-pylr", "tf-pylr") or not quick]
   for name, opt, cfg, tree in eager:
     if cfg.get("mode") in ("pmap",):
       continue
